@@ -586,7 +586,43 @@ def sweep_rules(chk):
         chk.ok(rule, sw.qual, "accept adopts the sweep before running; every cycle runs the adopt step before sleeping; the step examines every unit and starts exactly those not running", node=sw.node)
 
 
+def channel_capacity(chk):
+    """O3.8: the hand-over channel never makes a registration block or fail (unbounded buffer)"""
+    prog = chk.program
+    rule = "O3.8"
+    cls = prog.cls(TRIO_RUNNER)
+    n = 0
+    for fis in cls.methods.values():
+        for fi in fis:
+            for node in ast.walk(fi.node):
+                if isinstance(node, ast.Call) and prog.resolve(cls.module, node.func) == "ext:trio.open_memory_channel":
+                    n += 1
+                    chk.count()
+                    cap = None
+                    for kw in node.keywords:
+                        if kw.arg == "max_buffer_size":
+                            cap = kw.value
+                    if cap is None and node.args:
+                        cap = node.args[0]
+                    txt = util.unparse(cap) if cap is not None else None
+                    if txt in ("float('inf')", 'float("inf")', "math.inf", "inf", "infinity"):
+                        chk.ok(rule, fi.qual, "the submit channel is unbounded: send_nowait never raises WouldBlock and a cross-thread send never waits for capacity", node=node)
+                    elif cap is None or isinstance(cap, ast.Constant):
+                        chk.bad(
+                            rule,
+                            fi.qual,
+                            "the submit channel has capacity %s: once it is full, registering a payload from inside the trio thread raises trio.WouldBlock out of adopt(), and a registration from another thread blocks" % (txt or "0 (default)"),
+                            node=node,
+                            stmt="bounded-channel %s" % txt,
+                        )
+                    else:
+                        chk.undecided(rule, fi.qual, "channel capacity %s is not a recognised constant" % txt, node=node)
+    if n != 1:
+        chk.undecided(rule, cls.qual, "%d memory channels opened" % n, node=cls.node)
+
+
 def run(chk):
+    chk.guard("O3.8", TRIO_RUNNER, channel_capacity, chk)
     chk.guard("O3.5", TRIO_RUNNER, send_after_close, chk)
     chk.guard("O3.1", META, meta_register, chk)
     chk.guard("O3.1", "<runners>", runner_forwards, chk)
